@@ -41,10 +41,53 @@ type Frame struct {
 }
 
 type Peer struct {
-	Conn   net.Conn // server end
-	Frames chan Frame
-	RdErr  chan error
-	wmu    sync.Mutex
+	Conn     net.Conn // server end
+	Frames   chan Frame
+	RdErr    chan error
+	wmu      sync.Mutex
+	gate     sync.Mutex
+	c        *sync.Cond
+	condOnce sync.Once
+	nread    int // frames read off the connection (after the version exchange)
+	taken    int // frames handed out by NextFrame
+	stopAt   int // 0, or: do not read once nread has reached this
+}
+
+// PauseAfterNext makes the peer stop reading once it has read ONE more request
+// frame than the harness has taken so far (all frames sent must have been taken
+// with NextFrame).  From then on the client's writes block until Resume.
+func (p *Peer) PauseAfterNext() {
+	p.gate.Lock()
+	p.stopAt = p.taken + 1
+	p.gate.Unlock()
+}
+
+// Resume lets the peer read again.
+func (p *Peer) Resume() {
+	p.gate.Lock()
+	p.stopAt = 0
+	p.gate.Unlock()
+	p.cond().Broadcast()
+}
+
+func (p *Peer) cond() *sync.Cond {
+	p.condOnce.Do(func() { p.c = sync.NewCond(&p.gate) })
+	return p.c
+}
+
+func (p *Peer) waitGate() {
+	c := p.cond()
+	p.gate.Lock()
+	for p.stopAt != 0 && p.nread >= p.stopAt {
+		c.Wait()
+	}
+	p.gate.Unlock()
+}
+
+func (p *Peer) countRead() {
+	p.gate.Lock()
+	p.nread++
+	p.gate.Unlock()
 }
 
 func readFrame(c net.Conn) (Frame, error) {
@@ -109,7 +152,9 @@ func Dial(ctx context.Context) (p9p.Session, *Peer, error) {
 		}
 		hs <- nil
 		for {
+			p.waitGate() // after PauseAfterNext: the peer stops reading, the client's writes block
 			f, err := readFrame(sc)
+			p.countRead()
 			if err != nil {
 				p.RdErr <- err
 				close(p.Frames)
@@ -201,6 +246,9 @@ func (p *Peer) NextFrame() (Frame, error) {
 		if !ok {
 			return Frame{}, errors.New("client side of the connection failed")
 		}
+		p.gate.Lock()
+		p.taken++
+		p.gate.Unlock()
 		return f, nil
 	case <-time.After(Wait):
 		return Frame{}, errors.New("no request frame within the time-out")
